@@ -71,6 +71,8 @@ pub enum Ev {
     Mut { i: usize, path: String, result: String },
     /// Walker `w` was dropped before it was exhausted.
     Dropped { w: usize },
+    /// Walker `w` was constructed while the working directory of the process was `cwd`.
+    Built { w: usize, cwd: String },
 }
 
 impl Ev {
@@ -83,6 +85,7 @@ impl Ev {
             | Ev::Budget { w, .. }
             | Ev::Saw { w, .. }
             | Ev::Dropped { w }
+            | Ev::Built { w, .. }
             | Ev::Tap { w, .. } => Some(*w),
             Ev::Mut { .. } => None,
         }
@@ -611,6 +614,7 @@ pub fn build_walker(
     world: &World,
     log: &Log,
     mutator: &Rc<RefCell<Mutator>>,
+    cwd: &str,
 ) -> Result<BoxIt, String> {
     let w = &sc.walkers[wi];
     let ctx = Ctx {
@@ -622,20 +626,20 @@ pub fn build_walker(
     if w.layers.len() > if w.erased { MAX_LAYERS_ERASED } else { MAX_LAYERS } {
         return Err("too many layers".to_string());
     }
-    install_order(w, &sc.cwd, &world.root_text);
-    let base = PathBuf::from(base_text(w, &sc.cwd, &world.root_text));
+    install_order(w, cwd, &world.root_text);
+    let base = PathBuf::from(base_text(w, cwd, &world.root_text));
     let beh = behavior(w, &world.root_text)?;
     let res = match &w.source {
         Source::Path => {
             let it = base.as_path().walk_with_behavior(beh);
             if w.erased {
-                build_erased(it, &w.layers, w.taps, &ctx, &sc.cwd)
+                build_erased(it, &w.layers, w.taps, &ctx, cwd)
             }
             else if w.taps {
-                t5(it, &w.layers, 0, &ctx, &sc.cwd)
+                t5(it, &w.layers, 0, &ctx, cwd)
             }
             else {
-                p5(it, &w.layers, 0, &ctx, &sc.cwd)
+                p5(it, &w.layers, 0, &ctx, cwd)
             }
         },
         Source::Glob { expr, rooted } => {
@@ -648,13 +652,13 @@ pub fn build_walker(
             let glob = Glob::new(&text).map_err(|e| format!("glob {:?}: {}", text, e))?;
             let it = glob.walk_with_behavior(base, beh);
             if w.erased {
-                build_erased(it, &w.layers, w.taps, &ctx, &sc.cwd)
+                build_erased(it, &w.layers, w.taps, &ctx, cwd)
             }
             else if w.taps {
-                t5(it, &w.layers, 0, &ctx, &sc.cwd)
+                t5(it, &w.layers, 0, &ctx, cwd)
             }
             else {
-                p5(it, &w.layers, 0, &ctx, &sc.cwd)
+                p5(it, &w.layers, 0, &ctx, cwd)
             }
         },
     };
@@ -685,22 +689,20 @@ pub fn execute(sc: &Scenario, world: &World, budget: &[usize]) -> Run {
         applied: vec![false; sc.mutations.len()],
         triggers: sc.triggers.clone(),
     }));
-    let has_cd = sc.schedule.iter().any(|s| matches!(s, Step::Cd(_)));
-    if has_cd && sc.walkers.iter().any(|w| !matches!(w.spelling, Spelling::Absolute | Spelling::AbsoluteSlash | Spelling::AbsoluteSlashDot)) {
-        return Run {
-            log: vec![],
-            build_error: Some("working-directory changes need absolute bases".to_string()),
-        };
-    }
     let mut its: Vec<Option<BoxIt>> = Vec::new();
     let mut built = vec![false; sc.walkers.len()];
     let mut build_error: Option<String> = None;
+    let cur_cwd: RefCell<String> = RefCell::new(sc.cwd.clone());
     let mut construct = |wi: usize, its: &mut Vec<Option<BoxIt>>, built: &mut Vec<bool>| {
         if built[wi] {
             return;
         }
         built[wi] = true;
-        match guarded(|| build_walker(sc, wi, world, &log, &mutator)) {
+        let cwd = cur_cwd.borrow().clone();
+        if cwd != sc.cwd {
+            log.borrow_mut().push(Ev::Built { w: wi, cwd: cwd.clone() });
+        }
+        match guarded(|| build_walker(sc, wi, world, &log, &mutator, &cwd)) {
             Ok(Ok(it)) => its[wi] = Some(it),
             Ok(Err(e)) => build_error = Some(e),
             Err(p) => {
@@ -787,7 +789,17 @@ pub fn execute(sc: &Scenario, world: &World, budget: &[usize]) -> Run {
                 step_walker(wi, &mut its, &mut calls)
             },
             Step::Cd(dir) => {
-                let _ = std::env::set_current_dir(world.abs(&dir));
+                // Fair only while no live walk has a relative base (a relative path is resolved
+                // by the system whenever it is used, so such a walk legitimately depends on the
+                // working directory): otherwise the step is skipped.
+                let relative_alive = (0..its.len()).any(|wi| {
+                    built[wi]
+                        && its[wi].is_some()
+                        && !matches!(sc.walkers[wi].spelling, Spelling::Absolute | Spelling::AbsoluteSlash | Spelling::AbsoluteSlashDot)
+                });
+                if !relative_alive && std::env::set_current_dir(world.abs(&dir)).is_ok() {
+                    *cur_cwd.borrow_mut() = dir.clone();
+                }
             },
             Step::M(mi) if mi < sc.mutations.len() => {
                 mutator.borrow_mut().apply(mi, &log);
